@@ -271,7 +271,7 @@ class DamageProperty:
     real = ["nix_manipulator parse/rebuild/set_value/remove_value (real)", "nix_manipulator.cli.main.main in-process (real code)", "real files in a scratch directory"]
     stubbed = ["the storage medium: damage is applied to the text in memory between save and load", "process boundary of the CLI (see C16)"]
 
-    def __init__(self, quick_runs=320, thorough_runs=6000):
+    def __init__(self, quick_runs=640, thorough_runs=8000):
         self.pid = "C07"
         self.runs = {"quick": quick_runs, "thorough": thorough_runs}
 
